@@ -35,7 +35,7 @@ ASSUMPTIONS = ['programs do not observe addresses, time, the recursion limit or 
                '<= 3.12 keeps the frame.f_locals snapshot (and so a value removed with del) alive until the frame ends',
                'a fault inside the handler\'s own last-resort except block is a double fault and out of scope',
                'fault enumeration uses single-threaded hosts (the per-thread pending store is keyed by thread id)']
-REQUIRE = {'programs_compared': 150, 'actions_attempted': 1500, 'raw_runs': 100, 'thread_end_probes': 60,
+REQUIRE = {'programs_compared': 150, 'actions_attempted': 1500, 'raw_runs': 100, 'thread_end_probes': 30,
            'fault_sites': 300, 'faults_injected': 300}
 SHARD_TIMEOUT = {'quick': 400, 'thorough': 2400}
 
